@@ -195,10 +195,11 @@ def prune(prefix, keep):
         pass
 
 
-def build_bin(name, sources, flavour, extra_cflags=(), extra_ldflags=(), link_lib=True, deps=(), optional=False):
+def build_bin(name, sources, flavour, extra_cflags=(), extra_ldflags=(), link_lib=True, deps=(), optional=False, plain_sources=()):
     """Build a harness binary against the current tree. Returns path."""
     srcs = [s if os.path.isabs(s) else os.path.join(VERIF, s) for s in sources]
-    dep_files = srcs + glob.glob(os.path.join(VERIF, "engine", "*")) + glob.glob(os.path.join(VERIF, "harness", "*.hpp")) + [
+    psrcs = [s_ if os.path.isabs(s_) else os.path.join(VERIF, s_) for s_ in plain_sources]
+    dep_files = srcs + psrcs + glob.glob(os.path.join(VERIF, "vsched", "*")) + glob.glob(os.path.join(VERIF, "engine", "*")) + glob.glob(os.path.join(VERIF, "harness", "*.hpp")) + [
         d if os.path.isabs(d) else os.path.join(VERIF, d) for d in deps]
     flags = COMMON + FLAVOURS[flavour] + list(extra_cflags)
     key = sha("bin", name, flavour, tree_hash(), file_hash(dep_files), " ".join(flags), " ".join(extra_ldflags))
@@ -211,7 +212,7 @@ def build_bin(name, sources, flavour, extra_cflags=(), extra_ldflags=(), link_li
         if os.path.exists(out):
             return out
         t0 = time.time()
-        inc = ["-I", shim_dir(), "-I", os.path.join(REPO, "include"), "-I", os.path.join(VERIF, "engine"), "-I", os.path.join(VERIF, "harness"), "-I", REPO]
+        inc = ["-I", shim_dir(), "-I", os.path.join(REPO, "include"), "-I", os.path.join(VERIF, "engine"), "-I", os.path.join(VERIF, "harness"), "-I", os.path.join(VERIF, "vsched"), "-I", REPO]
         objs = []
         jobs = []
         tmpd = tempfile.mkdtemp(prefix="obj-", dir=BUILD)
@@ -220,6 +221,10 @@ def build_bin(name, sources, flavour, extra_cflags=(), extra_ldflags=(), link_li
                 o = os.path.join(tmpd, os.path.basename(s) + ".o")
                 objs.append(o)
                 jobs.append([CXX] + flags + inc + ["-c", s, "-o", o])
+            for s_ in psrcs:   # runtime pieces that must not be instrumented (vsched/rt.cpp)
+                o = os.path.join(tmpd, os.path.basename(s_) + ".plain.o")
+                objs.append(o)
+                jobs.append([CXX] + COMMON + inc + ["-c", s_, "-o", o])
             with ThreadPoolExecutor(NCPU) as ex:
                 res = list(ex.map(run_cmd, jobs))
             for r, j in zip(res, jobs):
@@ -540,7 +545,15 @@ def minimize_artifact(binary, path, workdir):
 
 # ---------------------------------------------------------------------------------------------- check driver
 
+WRAPS = ["pthread_create", "pthread_join", "sched_yield", "usleep", "clock_gettime", "pthread_mutex_init", "pthread_mutex_destroy", "pthread_mutex_lock", "pthread_mutex_trylock",
+         "pthread_mutex_unlock", "pthread_cond_init", "pthread_cond_destroy", "pthread_cond_wait", "pthread_cond_timedwait", "pthread_cond_signal", "pthread_cond_broadcast",
+         "sem_init", "sem_destroy", "sem_post", "sem_wait", "sem_timedwait", "sem_trywait"]
+
+
 def part_binary(prop, part):
+    if part.get("flavour") == "sched":
+        ld = ["-Wl," + ",".join("--wrap=" + w for w in WRAPS + list(part.get("wraps", ())))] + list(part.get("ldflags", ()))
+        return build_bin(part.get("bin", "%s_%s" % (prop, part["name"])), part["sources"], "sched", part.get("cflags", ()), ld, deps=part.get("deps", ()), plain_sources=["vsched/rt.cpp"] + list(part.get("plain_sources", ())))
     if part["kind"] == "libfuzzer":
         return build_bin(part.get("bin", "%s_%s" % (prop, part["name"])), part["sources"], "fuzz", part.get("cflags", ()), part.get("ldflags", ()), deps=part.get("deps", ()))
     return build_bin(part.get("bin", "%s_%s" % (prop, part["name"])), part["sources"], part.get("flavour", "asan"), part.get("cflags", ()), part.get("ldflags", ()), deps=part.get("deps", ()))
